@@ -284,9 +284,28 @@ func suiteCluster(c *Ctx) {
 		k := r.Range(2, 8)
 		kinds := map[string]bool{}
 		base, binfo := genTopology(r, i)
+		base0 := append([]gnode{}, base...)
 		infos = append(infos, binfo...)
 		for j := 0; j < k; j++ {
-			switch r.Intn(7) {
+			switch r.Intn(8) {
+			case 7: // failover: a master and one of its replicas swap roles (same addresses)
+				for x := range base {
+					if base[x].flags == "slave" {
+						for y := range base {
+							if strings.Contains(base[y].flags, "master") && base[y].name == base[x].master && len(base[y].slots) > 0 {
+								base[x].flags, base[x].slots, base[x].master = "master", base[y].slots, "-"
+								base[y].flags, base[y].slots, base[y].master = "slave", nil, base[x].name
+								infos = append(infos, infoEnt{strings.Split(base[y].addr, "@")[0], false, true, false})
+								kinds["failover"] = true
+								break
+							}
+						}
+						if kinds["failover"] {
+							break
+						}
+					}
+				}
+				events = append(events, "m"+bulk(textOf(base, r)), "t")
 			case 0:
 				events = append(events, "m"+unusable[r.Intn(len(unusable))])
 				kinds["unusable"] = true
@@ -319,7 +338,15 @@ func suiteCluster(c *Ctx) {
 				}
 			}
 		}
+		// configured seed addresses: one foreign address, and sometimes nodes of the first topology
+		// with a role that may be wrong (a seed that is really a replica starts as a master pool)
 		pools := [][2]string{{"10.9.9.9:7000", "0"}}
+		for _, nd := range base0 {
+			if r.Chance(25) && len(pools) < 3 {
+				pools = append(pools, [2]string{strings.Split(nd.addr, "@")[0], r.Pick("0", "1")})
+				kinds["seed-is-node"] = true
+			}
+		}
 		var evsx []sx.V
 		for _, e := range events {
 			if e[0] == 't' {
@@ -335,7 +362,15 @@ func suiteCluster(c *Ctx) {
 		if len(tags) == 0 {
 			tags = []string{"plain"}
 		}
-		c.Emit("cluster", sx.L(infoSx(infos), sx.L(sx.L(sx.S(pools[0][0]), sx.I(0))), sx.L(evsx...), sx.Ints(probeSlots)),
+		var poolsx []sx.V
+		for _, p := range pools {
+			role := 0
+			if p[1] == "1" {
+				role = 1
+			}
+			poolsx = append(poolsx, sx.L(sx.S(p[0]), sx.I(role)))
+		}
+		c.Emit("cluster", sx.L(infoSx(infos), sx.L(poolsx...), sx.L(evsx...), sx.Ints(probeSlots)),
 			Safe(func() sx.V { return runCluster(infos, pools, events) }), append([]string{"history"}, tags...)...)
 	}
 }
